@@ -313,3 +313,12 @@ Proof.
       destruct (HI _ _ _ Hl Ho) as (io' & Hlo' & _ & Hp'). rewrite Hlo in Hlo'. inversion Hlo'; subst io'.
       rewrite <- Hp, Hp'. reflexivity.
 Qed.
+
+(* key-value stores: access is decided by the node's type alone, whoever the actor is *)
+Theorem kv_open_actor_irrelevant : forall h a b n, kv_open_check h a n = kv_open_check h b n.
+Proof. reflexivity. Qed.
+Theorem kv_open_granted_iff : forall h a n, kv_open_check h a n = Granted <-> lookup h n = Some TKVStore.
+Proof.
+  intros h a n. unfold kv_open_check. destruct (lookup h n) as [[i| |x|b]|]; split; intro H;
+    try discriminate; try reflexivity; inversion H.
+Qed.
